@@ -6608,7 +6608,8 @@ func (bexp *LikeBoolExp) reduce(tx *SQLTx, row *Row, implicitTable string) (Type
 // Backslash escapes in the pattern (\% and \_) are honored.
 func sqlLikeToRegex(pattern string) string {
 	var b strings.Builder
-	b.WriteString("^")
+	// (?s): wildcards match any character, line terminators included
+	b.WriteString("(?s)^")
 
 	i := 0
 	for i < len(pattern) {
@@ -6616,8 +6617,8 @@ func sqlLikeToRegex(pattern string) string {
 		switch {
 		case ch == '\\' && i+1 < len(pattern):
 			// Escaped character — treat next char as literal
-			next := pattern[i+1]
-			b.WriteString(regexp.QuoteMeta(string(next)))
+			// bytes are copied as they are: string(byte) would re-encode the bytes of a multi-byte character
+			b.WriteString(regexp.QuoteMeta(pattern[i+1 : i+2]))
 			i += 2
 		case ch == '%':
 			b.WriteString(".*")
@@ -6626,7 +6627,7 @@ func sqlLikeToRegex(pattern string) string {
 			b.WriteString(".")
 			i++
 		default:
-			b.WriteString(regexp.QuoteMeta(string(ch)))
+			b.WriteString(regexp.QuoteMeta(pattern[i : i+1]))
 			i++
 		}
 	}
